@@ -349,6 +349,7 @@ func (tc *typechecker) checkShortVariableDeclaration(node *ast.Assignment) {
 				}
 			case isAlreadyDeclared[node.Lhs[i]]:
 				lh := tc.checkIdentifier(node.Lhs[i].(*ast.Identifier), false)
+				tc.checkAssignTo(lh, node.Lhs[i])
 				tc.mustBeAssignableTo(ti, expr, lh.Type, false, nil)
 				ti.setValue(lh.Type)
 			case ti.Nil():
